@@ -12,6 +12,7 @@ use crate::validation::RecursionLimitError;
 use crate::ExecutableDocument;
 use crate::Name;
 use crate::Node;
+use crate::Schema;
 
 /// Built-in directive names.
 pub(crate) const SKIP_DIRECTIVE_NAME: &str = "skip";
@@ -21,18 +22,31 @@ pub(crate) const DEFER_DIRECTIVE_NAME: &str = "defer";
 /// Iterate all selections in the selection set.
 ///
 /// This includes fields, fragment spreads, and inline fragments. For fragments, both the spread
-/// and the fragment's nested selections are reported.
+/// and the fragment's nested selections are reported, except the nested selections of a fragment
+/// whose type condition does not apply to the object type of `selections`:
+/// [CollectFields] skips them. Returns whether such a fragment was found.
 ///
 /// Does not recurse into nested fields.
+///
+/// [CollectFields]: https://spec.graphql.org/October2021/#CollectFields()
 fn walk_selections<'doc>(
+    schema: &Schema,
     document: &'doc ExecutableDocument,
     selections: &'doc executable::SelectionSet,
     mut f: impl FnMut(&'doc executable::Selection),
-) -> Result<(), RecursionLimitError> {
+) -> Result<bool, RecursionLimitError> {
+    /// <https://spec.graphql.org/October2021/#DoesFragmentTypeApply()>
+    fn does_fragment_type_apply(schema: &Schema, object_type: &Name, fragment_type: &Name) -> bool {
+        object_type == fragment_type || schema.is_subtype(fragment_type, object_type)
+    }
+
     fn walk_selections_inner<'doc>(
+        schema: &Schema,
         document: &'doc ExecutableDocument,
+        object_type: &Name,
         selection_set: &'doc executable::SelectionSet,
         seen: &mut HashSet<&'doc Name>,
+        skipped_fragment: &mut bool,
         mut guard: DepthGuard<'_>,
         f: &mut dyn FnMut(&'doc executable::Selection),
     ) -> Result<(), RecursionLimitError> {
@@ -52,20 +66,37 @@ fn walk_selections<'doc>(
                     if let Some(fragment_definition) =
                         document.fragments.get(&fragment.fragment_name)
                     {
+                        let type_condition = fragment_definition.type_condition();
+                        if !does_fragment_type_apply(schema, object_type, type_condition) {
+                            *skipped_fragment = true;
+                            continue;
+                        }
                         walk_selections_inner(
+                            schema,
                             document,
+                            object_type,
                             &fragment_definition.selection_set,
                             seen,
+                            skipped_fragment,
                             guard.increment()?,
                             f,
                         )?;
                     }
                 }
                 executable::Selection::InlineFragment(fragment) => {
+                    if let Some(type_condition) = &fragment.type_condition {
+                        if !does_fragment_type_apply(schema, object_type, type_condition) {
+                            *skipped_fragment = true;
+                            continue;
+                        }
+                    }
                     walk_selections_inner(
+                        schema,
                         document,
+                        object_type,
                         &fragment.selection_set,
                         seen,
+                        skipped_fragment,
                         guard.increment()?,
                         f,
                     )?;
@@ -81,16 +112,22 @@ fn walk_selections<'doc>(
     // under that pre-existing limit. Luckily the existing limit was very conservative.
     let mut depth = DepthCounter::new().with_limit(500);
 
+    let mut skipped_fragment = false;
     walk_selections_inner(
+        schema,
         document,
+        &selections.ty,
         selections,
         &mut HashSet::default(),
+        &mut skipped_fragment,
         depth.guard(),
         &mut f,
-    )
+    )?;
+    Ok(skipped_fragment)
 }
 
 pub(crate) fn validate_subscription(
+    schema: &Schema,
     document: &executable::ExecutableDocument,
     operation: &Node<executable::Operation>,
     diagnostics: &mut DiagnosticList,
@@ -103,7 +140,7 @@ pub(crate) fn validate_subscription(
     // Fields with the same response key are merged into a single root field
     let mut response_keys = vec![];
 
-    let walked = walk_selections(document, &operation.selection_set, |selection| {
+    let walked = walk_selections(schema, document, &operation.selection_set, |selection| {
         if let executable::Selection::Field(field) = selection {
             field_names.push(field.name.clone());
             if !response_keys.contains(field.response_key()) {
@@ -135,12 +172,14 @@ pub(crate) fn validate_subscription(
         }
     });
 
-    if walked.is_err() {
+    let Ok(skipped_fragment) = walked else {
         diagnostics.push(None, DiagnosticData::RecursionError {});
         return;
-    }
+    };
 
-    if response_keys.len() > 1 {
+    // There must be exactly one root field. There is none when all root fields are in
+    // fragments that do not apply to the root type.
+    if response_keys.len() > 1 || (response_keys.is_empty() && skipped_fragment) {
         diagnostics.push(
             operation.location(),
             executable::BuildError::SubscriptionUsesMultipleFields {
